@@ -95,6 +95,7 @@ func (ctrler *StakeCtrler) InitLedger(req interface{}) xerrors.XError {
 		return xerrors.ErrInitChain.Wrapf("wrong parameter: StakeCtrler::InitLedger() requires []*InitStake")
 	}
 
+	var genesisValidators DelegateeArray
 	for _, initS0 := range initStakes {
 		for _, s0 := range initS0.Stakes {
 			d := NewDelegatee(s0.To, initS0.PubKeys)
@@ -104,10 +105,34 @@ func (ctrler *StakeCtrler) InitLedger(req interface{}) xerrors.XError {
 			if xerr := ctrler.delegateeLedger.SetFinality(d); xerr != nil {
 				return xerr
 			}
+			// keep a snapshot: `d` itself is modified in place by the transactions of the first block
+			snap, xerr := snapshotDelegatee(d)
+			if xerr != nil {
+				return xerr
+			}
+			genesisValidators = append(genesisValidators, snap)
 		}
 	}
 
+	// The consensus engine starts with exactly these validators.
+	// They must be known as the last reported validator set;
+	// otherwise a genesis validator leaving in the first block is never removed from the consensus engine.
+	sort.Sort(PowerOrderDelegatees(genesisValidators))
+	ctrler.lastValidators = genesisValidators
+
 	return nil
+}
+
+func snapshotDelegatee(d *Delegatee) (*Delegatee, xerrors.XError) {
+	bz, xerr := d.Encode()
+	if xerr != nil {
+		return nil, xerr
+	}
+	snap := &Delegatee{}
+	if xerr := snap.Decode(bz); xerr != nil {
+		return nil, xerr
+	}
+	return snap, nil
 }
 
 // BeginBlock are called in RigoApp::BeginBlock
@@ -124,7 +149,21 @@ func (ctrler *StakeCtrler) BeginBlock(blockCtx *ctrlertypes.BlockContext) ([]abc
 	//	   consensus add this account to validator set at block (N+1)+2.
 	//	   (Refer to the comments in updateState(...) at github.com/tendermint/tendermint@v0.34.20/state/execution.go)
 	// So, the account can sign a block from block N+3 in consensus engine
-	if xerr := ctrler.delegateeLedger.IterateReadAllFinalityItems(func(d *Delegatee) xerrors.XError {
+	iterateDelegatees := ctrler.delegateeLedger.IterateReadAllFinalityItems
+	if ctrler.delegateeLedger.Version() == 0 {
+		// Nothing is committed before the first block: the genesis delegatees are still pending.
+		// Pending items are modified in place by the transactions of the block, so use snapshots of them.
+		iterateDelegatees = func(cb func(*Delegatee) xerrors.XError) xerrors.XError {
+			return ctrler.delegateeLedger.IterateFinalityUpdatedItems(func(d *Delegatee) xerrors.XError {
+				snap, xerr := snapshotDelegatee(d)
+				if xerr != nil {
+					return xerr
+				}
+				return cb(snap)
+			})
+		}
+	}
+	if xerr := iterateDelegatees(func(d *Delegatee) xerrors.XError {
 		// issue #59
 		// Only delegatee who have deposited more than `MinValidatorStake` can become validator.
 		minPower := ctrlertypes.AmountToPower(ctrler.govParams.MinValidatorStake())
